@@ -65,9 +65,11 @@ type Term struct {
 	Name   string // variables
 	P1, P2 int
 	ID     int
+	NZ     uint64 // bits that may be non-zero (W <= 64)
 }
 
 type Store struct {
+	Raw   bool // no canonicalisation (test baseline)
 	mu    sync.Mutex
 	table map[string]*Term
 	next  int
@@ -97,6 +99,7 @@ func (s *Store) intern(t Term) *Term {
 	}
 	s.next++
 	t.ID = s.next
+	t.NZ = computeNZ(&t)
 	p := &t
 	s.table[k] = p
 	if t.Op == OpVar {
@@ -199,6 +202,12 @@ func (s *Store) Ite(c, a, b *Term) *Term {
 			return s.And(c, a)
 		}
 	}
+	if !s.Raw && a.W > 0 {
+		if r, ok := s.iteConcat(c, a, b); ok {
+			return r
+		}
+		return s.iteRaw(c, a, b)
+	}
 	return s.intern(Term{Op: OpIte, W: a.W, Args: []*Term{c, a, b}})
 }
 
@@ -222,6 +231,12 @@ func (s *Store) Eq(a, b *Term) *Term {
 		if b.IsFalse() {
 			return s.Not(a)
 		}
+	}
+	if !s.Raw && a.W > 0 {
+		if r, ok := s.eqConcat(a, b); ok {
+			return r
+		}
+		return s.eqRaw(a, b)
 	}
 	if a.ID > b.ID {
 		a, b = b, a
@@ -306,6 +321,38 @@ func (s *Store) Bin(op Op, a, b *Term) *Term {
 		}
 	}
 	w := a.W
+	if !s.Raw && w <= 64 {
+		switch op {
+		case OpBAnd:
+			if b.IsConst() && b.Val != 0 && b.Val != mask(w) {
+				if r, ok := s.andMask(a, b.Val); ok {
+					return r
+				}
+			}
+			if a.IsConst() && a.Val != 0 && a.Val != mask(w) {
+				if r, ok := s.andMask(b, a.Val); ok {
+					return r
+				}
+			}
+			if a.NZ&b.NZ == 0 {
+				return s.BV(w, 0)
+			}
+		case OpBOr, OpBXor, OpAdd:
+			if r, ok := s.disjoint(a, b); ok {
+				return r
+			}
+		case OpShl:
+			if b.IsConst() && b.Val > 0 && b.Val < uint64(w) {
+				k := int(b.Val)
+				return s.ConcatN([]*Term{s.Extract(a, w-1-k, 0), s.BV(k, 0)})
+			}
+		case OpLShr:
+			if b.IsConst() && b.Val > 0 && b.Val < uint64(w) {
+				k := int(b.Val)
+				return s.ConcatN([]*Term{s.BV(k, 0), s.Extract(a, w-1, k)})
+			}
+		}
+	}
 	switch op {
 	case OpAdd:
 		if a.IsConst() && a.Val == 0 {
@@ -461,6 +508,9 @@ func (s *Store) Concat(hi, lo *Term) *Term {
 	if hi.IsConst() && lo.IsConst() && hi.W+lo.W <= 64 {
 		return s.BV(hi.W+lo.W, hi.Val<<uint(lo.W)|lo.Val)
 	}
+	if !s.Raw {
+		return s.ConcatN([]*Term{hi, lo})
+	}
 	return s.intern(Term{Op: OpConcat, W: hi.W + lo.W, Args: []*Term{hi, lo}})
 }
 
@@ -473,6 +523,9 @@ func (s *Store) ZExt(a *Term, to int) *Term {
 	}
 	if a.IsConst() {
 		return s.BV(to, a.Val)
+	}
+	if !s.Raw {
+		return s.ConcatN([]*Term{s.BV(to-a.W, 0), a})
 	}
 	return s.intern(Term{Op: OpZExt, W: to, Args: []*Term{a}, P1: to - a.W})
 }
